@@ -515,5 +515,6 @@ theorem getv_of_some (env : Env) (s : State) (k : Key) (ock : Option CK) {i : Na
         | .hookErr => ⟨(remove (afterHit s k i) k).st, .err .backend, [.acqW, .relW] ++ (remove (afterHit s k i) k).trace⟩
       | _, _ => ⟨afterHit s k i, .val (some v), [.acqW, .relW]⟩ := by
   simp only [getv, h, afterHit]
+  cases env.hooks <;> cases ock <;> rfl
 
 end Cascette.Proofs.MultiLayer
